@@ -290,12 +290,16 @@ mod if_alloc {
     pub mod shared {
         use super::*;
         use crate::channel::shared::ChannelReceiveFuture;
+        use core::sync::atomic::{AtomicUsize, Ordering};
 
         struct GenericOneshotChannelSharedState<MutexType, T>
         where
             MutexType: RawMutex,
             T: 'static,
         {
+            /// The amount of [`GenericOneshotBroadcastReceiver`] instances
+            /// which reference this state.
+            receivers: AtomicUsize,
             channel: GenericOneshotBroadcastChannel<MutexType, T>,
         }
 
@@ -360,6 +364,11 @@ mod if_alloc {
             T: Clone + 'static,
         {
             fn clone(&self) -> Self {
+                let old_size =
+                    self.inner.receivers.fetch_add(1, Ordering::Relaxed);
+                if old_size > (core::isize::MAX) as usize {
+                    panic!("Reached maximum refcount");
+                }
                 Self {
                     inner: self.inner.clone(),
                 }
@@ -408,8 +417,10 @@ mod if_alloc {
             T: Clone,
         {
             fn drop(&mut self) {
-                // TODO: This is broken, since it will already close the channel if only one receiver is closed.
-                // We need to count receivers, as in mpmc queue.
+                if self.inner.receivers.fetch_sub(1, Ordering::Release) != 1 {
+                    return;
+                }
+                core::sync::atomic::fence(Ordering::Acquire);
                 #[cfg(futures_intrusive_verif)]
                 crate::verif::point(14);
                 // Close the channel, before last receiver gets destroyed
@@ -435,6 +446,7 @@ mod if_alloc {
         {
             let inner =
                 alloc::sync::Arc::new(GenericOneshotChannelSharedState {
+                    receivers: AtomicUsize::new(1),
                     channel: GenericOneshotBroadcastChannel::new(),
                 });
 
